@@ -272,7 +272,8 @@ def socks_cases(draw):
 CONNECT_REPLIES = [b"HTTP/1.1 200 Connection established\r\n\r\n", b"HTTP/1.1 200 OK\r\nContent-Length: 5\r\n\r\nhello", b"HTTP/1.1 407 Auth\r\nContent-Length: 0\r\n\r\n",
                    b"HTTP/1.1 100 Continue\r\n\r\nHTTP/1.1 200 OK\r\n\r\n", b"HTTP/1.1 101 Switching Protocols\r\n\r\n", b"HTTP/1.0 200 OK\r\n\r\n", b"HTTP/1.1 200\r\n\r\n",
                    b"HTTP/1.1 abc\r\n\r\n", b"", b"\x05\x00", b"HTTP/1.1 200 OK\r\nBad Header\r\n\r\n", b"HTTP/1.1 200 OK\r\nTransfer-Encoding: chunked\r\n\r\n0\r\n\r\n",
-                   b"HTTP/1.1 302 Found\r\nLocation: x\r\n\r\n", b"HTTP/1.1 200 " + b"r" * 70000 + b"\r\n\r\n", b"HTTP/1.1 204 No\r\n\r\n", b"HTTP/1.1 299 Odd\r\n\r\n"]
+                   b"HTTP/1.1 302 Found\r\nLocation: x\r\n\r\n", b"HTTP/1.1 403 Interdit \xe9\xe8\r\n\r\n", b"HTTP/1.1 502 \xff\xfe bad gateway\r\nContent-Length: 0\r\n\r\n",
+                   b"HTTP/1.1 407 Auth\r\nProxy-Authenticate: Basic realm=\"caf\xe9\"\r\nContent-Length: 0\r\n\r\n", b"HTTP/1.1 200 " + b"r" * 70000 + b"\r\n\r\n", b"HTTP/1.1 204 No\r\n\r\n", b"HTTP/1.1 299 Odd\r\n\r\n"]
 
 
 @st.composite
